@@ -5,21 +5,14 @@ import json, os, subprocess
 VERIF = os.path.dirname(os.path.dirname(os.path.abspath(__file__)))
 
 NOTE = ("Trusted: Coq 8.16.1 kernel; no axioms (Print Assumptions re-run on every check, must print 'Closed under the global "
-        "context'); ExtrOcamlBasic extraction (no Extract Constant); ocaml/driver.ml; the Python harness; the C++ drivers; g++ 12. "
+        "context'); ExtrOcamlBasic extraction (no Extract Constant); ocaml/common.ml + ocaml/h_<id>.ml; the Python harness; the C++ drivers; g++ 12. "
         "The Model is hand written; it is tied to /repo by the differential correspondence run on every check against the "
         "current working tree, so Impl~Model holds on the explored cases only, Model|=Spec for all inputs of the stated domain.")
 
-CLAIMED = {
-    "C01": dict(
-        text=("Kernel-checked theorems for every dimension and all positive extents: strides are suffix products, "
-              "flat->multi->flat and multi->flat->multi are identities, every produced index is in bounds, ndindex enumeration "
-              "equals the nested-loop order with no repetition and complete, lexicographic order = offset order, both layouts "
-              "are injective/in-range and satisfy read-over-write, and w-bit arithmetic coincides with the ideal one while the "
-              "element count fits. Tied to the C++ by running the real index functions / ndarray accessors for 7 container kinds "
-              "and both layouts against the extracted model on the small box and on sizes near 2^24..2^40."),
-        ref="5.1", technique="Coq proof (induction on the shape) + differential correspondence with the extracted model",
-        extra=""),
-}
+import sys
+sys.path.insert(0, VERIF)
+from harness import core
+CLAIMED = {p.ID: p.CLAIM for p in core.all_props() if getattr(p, "CLAIM", None)}
 
 REASON_TODO = "check not built yet in this round (framework under construction); planned, see DESIGN.md section 5"
 NOT_APPLICABLE = {}
@@ -63,7 +56,7 @@ def main():
                 "replay_cmd_template": "./check %s --replay {path}" % pid,
                 "engine": "coq",
                 "level_claimed": {"category": "proof", "text": c["text"], "design_ref": "DESIGN.md section " + c["ref"]},
-                "level_note": NOTE + (" " + c["extra"] if c["extra"] else ""),
+                "level_note": NOTE + (" " + c["extra"] if c.get("extra") else ""),
                 "technique": c["technique"],
             })
         else:
